@@ -26,9 +26,9 @@ func init() {
 					jobs = append(jobs, Job{Pkg: "proxy", Func: "verifC20Index", Args: []int64{int64(n), int64(a)}})
 				}
 			}
-			maxF := 7
+			maxF := 6
 			if tier == "thorough" {
-				maxF = 10
+				maxF = 8
 			}
 			for n := 0; n <= maxF; n++ {
 				for a := 0; a < 3; a++ {
@@ -42,6 +42,7 @@ func init() {
 		},
 		Setup: func(e *sym.Engine, st *sym.State, l *sym.Loaded) {
 			setupNetip(e, st, l)
+			e.Ctx["latin1"] = true
 			px := l.Pkgs[modPath+"/proxy"]
 			e.Redirects["github.com/AdguardTeam/gomitmproxy/proxyutil.ReadDecompressedBody"] = px.Func("verifReadDecompressedBody")
 			e.Redirects["github.com/AdguardTeam/gomitmproxy/proxyutil.DecodeLatin1"] = px.Func("verifDecodeLatin1")
@@ -56,13 +57,13 @@ func init() {
 				return nil
 			}
 		},
-		ContractStubs: "filterHTML environment: decompression and Latin-1 coding are identities on ASCII, the template yields a fixed tag",
+		ContractStubs: "filterHTML environment: identity decompression, Latin-1 coding per its definition, fixed tag",
 		MustReach: []string{"c20.found", "c20.none", "c20.window", "c20.injected", "c20.unchanged"},
 		Bounds: map[string]string{
-			"quick":    "findBodyInjectionIndex/isMatchFound on bodies of 0..9 symbolic bytes over three alphabets (the letters of each marker in both cases, '<', '/', a filler) and on bodies of 16384-k filler bytes followed by 9 symbolic bytes for k in {-1,0,1,3,6,8}; filterHTML (environment stubbed) on bodies of 0..7 symbolic ASCII bytes: output, Content-Length, Content-Encoding, original body closed",
+			"quick":    "findBodyInjectionIndex/isMatchFound on bodies of 0..9 symbolic bytes over three alphabets (the letters of each marker in both cases, '<', '/', a filler) and on bodies of 16384-k filler bytes followed by 9 symbolic bytes for k in {-1,0,1,3,6,8}; filterHTML (environment stubbed) on bodies of 0..6 symbolic bytes incl. two byte values >= 0x80 (Latin-1 coding modelled exactly: one or two UTF-8 bytes per byte): output, Content-Length, Content-Encoding, original body closed",
 			"thorough": "bodies up to 13 symbolic bytes; every k in -2..9",
 		},
-		Outside:     []string{"gzip decompression, the x/text Latin-1 coding (bytes >= 0x80 become two bytes in the decoded string, so the window counts decoded bytes) and the content-script template: replaced by contracts (identity on ASCII bodies, fixed tag); bodies with bytes >= 0x80 are not covered", "bodies other than the two shapes"},
+		Outside:     []string{"gzip decompression, the x/text Latin-1 coding (bytes >= 0x80 become two bytes in the decoded string, so the window counts decoded bytes) and the content-script template: replaced by contracts: identity decompression, exact Latin-1 coding written in the harness, fixed tag", "bodies other than the two shapes"},
 		Assumptions: []string{"strings.EqualFold on ASCII"},
 		Rule:        "body bytes symbolic; one state per feasible path of the scan",
 	})
